@@ -137,13 +137,13 @@ func splitLines(s string) []string {
 
 func post(a *core.Agg) string {
 	need := map[string]int64{
-		"truth_table_rows_table1":        int64(nRows1),
-		"truth_table_rows_table2":        int64(nRows2),
-		"probes_parsed":                  20000,
-		"sentinel_leaves_checked":        20000,
-		"isolation_probe_pairs_compared": 1000,
-		"disabled_instances":             5000,
-		"aliased_instances":              5000,
+		"truth_table_rows_table1":                          int64(nRows1),
+		"truth_table_rows_table2":                          int64(nRows2),
+		"probes_parsed":                                    20000,
+		"sentinel_leaves_checked":                          20000,
+		"isolation_probe_pairs_compared":                   1000,
+		"disabled_instances":                               5000,
+		"aliased_instances":                                5000,
 		"schema_violations_in_disabled_dependency_ignored": 20,
 	}
 	for k, min := range need {
